@@ -1,5 +1,6 @@
 import Skv.Lemmas.History
 import Skv.Lemmas.HistRange
+import Skv.Lemmas.GetAtAny
 import Skv.Lemmas.Compact
 /-!
 # C10 — time-travel reads and version history are exact and permanent
@@ -150,3 +151,23 @@ theorem C10_finding_commit_order_until_flush :
     (histKeyFwd true none 100 false false false vs).map (·.ts) = [200, 100, 300] ∧
     (specKey { tombs := true } 100 (sortTs vs)).map (·.ts) = [300, 200, 100] ∧
     getAt 100 300 vs = specGetAt 100 300 (sortTs vs) := by decide
+
+
+/-- **get_at, any order of the listing.** When the timestamps of a key's versions are pairwise different,
+`get_at` returns the retained version with the greatest timestamp not above `t` (nothing if that is a delete)
+whatever order the versions are listed in — no assumption that timestamps follow the commit order. -/
+theorem C10_get_at_any_order (snap t : Nat) (vs : List HVer) (h : TsDistinct vs) :
+    getAt snap t vs = specGetAt snap t vs := getAt_eq_spec_distinct snap t vs h
+
+/-- **get_at with back-filled timestamps.** For a key holding sets only, the answer computed over the commit
+order (unflushed versions) is the specification's answer over the timestamp order (the version index): the
+same before and after the flush. -/
+theorem C10_get_at_back_filled_sets (snap t : Nat) (vs : List HVer) (hs : AllSets vs) (hd : TsDistinct vs) :
+    getAt snap t vs = specGetAt snap t (sortTs vs) := getAt_sets_any_order snap t vs hs hd
+
+/-- non-vacuity: put@300, put@100, put@200 in commit order newest first -/
+example : AllSets [⟨3, .set, 200, 3⟩, ⟨2, .set, 100, 2⟩, ⟨1, .set, 300, 1⟩] ∧
+    TsDistinct [⟨3, .set, 200, 3⟩, ⟨2, .set, 100, 2⟩, ⟨1, .set, 300, 1⟩] := by
+  constructor
+  · intro v hv; simp at hv; rcases hv with rfl | rfl | rfl <;> rfl
+  · simp [TsDistinct]
